@@ -206,6 +206,6 @@ def run_case(case, rec, ctx):
 
 META = {
     "technique": "metamorphic runtime observation of the full user pipeline (lambdified kinematic variables from four-momenta -> lambdified intensity) on events and their images under proper rotations",
-    "level_text": "Every fixture with complete helicity sets (and synthetic 3- and 4-body reactions) is built with Breit-Wigner dynamics and random complex couplings under no alignment, axis-angle and DPD; 48 (thorough 160) events from flat/threshold/boosted strata are evaluated under 10 rotations (Haar-random, pi/2 and pi about each axis, 1e-6 rad) plus the identity as self-test, all through ampform's own NumPy printers for the kinematics. Required cases: single topology; several topologies with a spinless final state or with an alignment. Held = max relative change <= 1e-8 on everything evaluated.",
+    "level_text": "Every fixture with complete helicity sets (and synthetic 3- and 4-body reactions) is built with Breit-Wigner dynamics and random complex couplings under no alignment, axis-angle and DPD; 48 (thorough 160) events from flat/threshold/boosted strata are evaluated under 10 rotations (Haar-random, pi/2 and pi about each axis, 1e-6 rad) plus the identity as self-test, all through ampform's own NumPy printers for the kinematics. Required cases: single topology; several topologies with a spinless final state or with an alignment. Held = max relative change <= 1e-8 on everything evaluated. Synthetic multi-topology reactions put the spin on any of the three final-state particles; topologies added by symmetrisation count when deciding whether invariance is required.",
     "level_note": "Rotation matrices and the event generator are ours (vector algebra); multi-topology models with spinful final state and no alignment are outside the statement and skipped.",
 }
